@@ -792,7 +792,16 @@ func execWR(c *wrCase) string {
 				return fmt.Sprintf("goroutine %d step %d %s: concurrent outcome %q, sequential outcome %q", g, i, o, got[g][i], want[g][i])
 			}
 		}
-		if d := model.Diff(wantTree[g], model.Observe(c.V, roots[g]), model.DiffOpts{}); len(d) > 0 {
+		gotTree := model.Observe(c.V, roots[g])
+		if c.V.Wrapper && (dupListKeys(wantTree[g]) || dupListKeys(gotTree)) {
+			// wrapper unions as list keys are pointers: writing an entry twice leaves two entries with the
+			// same key (open finding F33, owned by C13/C31), and which of the two a later write reaches
+			// follows map iteration order. Such trees cannot be compared entry by entry; the per-step
+			// outcomes above were compared.
+			dupKeyTrees++
+			continue
+		}
+		if d := model.Diff(wantTree[g], gotTree, model.DiffOpts{}); len(d) > 0 {
 			return fmt.Sprintf("goroutine %d: the tree written concurrently differs from the tree written by the same operations sequentially:\n  %s", g, th.JoinDiff(d))
 		}
 	}
@@ -864,6 +873,43 @@ func (c *wrCase) classes() []string {
 	return cl
 }
 
+// dupKeyTrees counts final trees of the writers scenario that were not compared because a list holds
+// two entries with the same key (see execWR).
+var dupKeyTrees int64
+
+// dupListKeys says whether some keyed list of the tree holds two entries with the same key.
+func dupListKeys(n *model.Node) bool {
+	if n == nil {
+		return false
+	}
+	for _, l := range n.List {
+		seen := map[string]bool{}
+		for _, e := range l {
+			k := model.KeyLoose(e.Key)
+			if seen[k] {
+				return true
+			}
+			seen[k] = true
+			if dupListKeys(e.N) {
+				return true
+			}
+		}
+	}
+	for _, c := range n.Cont {
+		if dupListKeys(c) {
+			return true
+		}
+	}
+	for _, l := range n.UList {
+		for _, e := range l {
+			if dupListKeys(e) {
+				return true
+			}
+		}
+	}
+	return false
+}
+
 // TestC21_Writers is scenario 2.
 func TestC21_Writers(t *testing.T) {
 	rec := startC21(t)
@@ -890,6 +936,7 @@ func TestC21_Writers(t *testing.T) {
 			t.Fatalf("C21 writers scenario: %s\n---- case ----\n%s", d, c.describe())
 		}
 	}
+	rec.Add("writers_trees_not_compared_duplicate_union_keys", dupKeyTrees)
 	if len(seeds) >= 10 && small*4 > len(seeds) {
 		t.Fatalf("INCONCLUSIVE: generator health: %d of %d writer cases have fewer than 20 leaves in the payload tree", small, len(seeds))
 	}
